@@ -122,6 +122,14 @@ CLAIMED = {
              "a fixed function of (merged S(Q), settings). The weight is on the correspondence: random op sequences on the real StoG, "
              "all master dictionaries compared after every step.", ref="8 (C12), 5",
              tech="Lean 4 theorems (invariant by induction over op lists) on a hand-written state machine + op-sequence correspondence"),
+ "C19": dict(text="Theorems on the hand model of configuration handling: every given key lands in its setting (Rdelta wins over Rpoints; "
+             "Rpoints -> Rmax/Rpoints); each omitted optional key == its default (settings, hence steps and files); invalid "
+             "RealSpaceFunction / non-bool LorchFlag / OmittedXrangeCorrection give an error, never a silent default; the CLI runs exactly "
+             "the step list of a library drive with the same settings; numpy.arange's length is the ceiling, so the r grid starts at Rmin "
+             "with constant step and covers Rmax; flag form defaults. The model is tied to the real code by the correspondence "
+             "(attributes, r grid bit for bit, files written by pystog_cli); file *contents* CLI vs library vs defaults-filled-in are "
+             "compared byte for byte by the oracle over enumerated present/absent subsets.", ref="8 (C19), 5",
+             tech="Lean 4 theorems (case analysis over Option fields, floor/ceil arithmetic) on a hand-written model + end-to-end CLI correspondence"),
 }
 
 m = {"version": 1, "setup_cmd": "./setup.sh",
@@ -143,6 +151,6 @@ for i in ids:
                             "level_claimed": {"category": "proof", "text": c["text"], "design_ref": "DESIGN.md section " + c["ref"]},
                             "level_note": c.get("note", NOTE_COMMON), "technique": c["tech"]})
     else:
-        m["not_applicable"].append({"property_id": i, "reason": "check not built yet (work in progress; planned in DESIGN.md section 8) — not a statement that the technique cannot apply"})
+        m["not_applicable"].append({"property_id": i, "reason": "check not built yet"})
 json.dump(m, open(os.path.join(VERIF, "MANIFEST.json"), "w"), indent=1)
 print("claimed:", sorted(CLAIMED))
